@@ -55,6 +55,9 @@ def _with_alarm(seconds, fn):
         signal.signal(signal.SIGALRM, old)
 
 
+STOP = None  # multiprocessing.Event set by the runner
+
+
 def run_conc(hname, params, model, script, alarm=20.0, canary=None):
     """Run a harness concretely (no proxies; only random/np.random scripted).
     Returns dict(status, outcome|label|error)."""
@@ -110,10 +113,15 @@ def run_task(task):
     prefix = []
     seen_labels = {}
     while True:
+        if STOP is not None and STOP.is_set() and not canary:
+            res["stopped"] = True  # the runner has enough unlisted counterexamples; see runner.main
+            break
         ex = Explorer(prefix, logic=logic, max_branches=h.meta.get("max_branches", 4000), shard=task.get("shard"))
         core.CUR = ex
         ctx = Ctx("sym", ex=ex, params=params)
         ctx.hname = hname
+        ctx.seen_labels = seen_labels  # labels already reported by this task (further ones get a plain model)
+        ctx.keep_per_label = task.get("keep_per_label", 3)
         ctx.path_index = res["paths"]
         ctx.canary = canary
         ctx.prob = None
